@@ -19,6 +19,15 @@ def returned_state(ck: Check) -> Tuple[object, Spec, Dict[str, Term]]:
     summ = ck.summ(CSQ + "add_block_no_validation", 0)
     sp = Spec(summ, ("self", "block"))
     rets = summ.returns()
+    # a guard clause that hands back the unchanged state for a block that is already stored leaves every rule about NEW blocks alone
+    known = sp.term("block.hash() in self.block_by_hash")
+    early = [r for r in rets if r.term == ("v", summ.fi.params[0]) and [c.term for c in residual(r, ())] == [known]]
+    if early and len(rets) == len(early) + 1:
+        rets = [r for r in rets if r not in early]
+        fresh = sp.term("block.hash() not in self.block_by_hash")
+        for e in summ.events:       # what follows the guard clause runs for new blocks only: that is the case the rules are about
+            if any(c.term == fresh and c.prov == "ret-surv" for c in e.pc):
+                e.pc = [c for c in e.pc if not (c.term == fresh and c.prov == "ret-surv")]      # type: ignore[misc]
     if len(rets) != 1 or residual(rets[0], ()) or rets[0].term[0] != "call" or rets[0].term[1] != ("g", "skepticoin.coinstate.CoinState"):
         raise AnalysisError("add_block_no_validation does not end in a single unconditional `return CoinState(...)`")
     init = ck.repo.func(CSQ + "__init__")
